@@ -2750,6 +2750,23 @@ class PerspConvex(Convex):
 
         return self.__mul__(other)
 
+    def __call__(self):
+
+        value_in = self.affine_in()
+        scale = self.affine_scale
+        value_scale = scale() if isinstance(scale, (Vars, VarSub, Affine)) else scale
+        out = self.affine_out
+        value_out = out() if isinstance(out, Affine) else out
+
+        if self.xtype == 'X':
+            value = value_scale * np.exp(value_in / value_scale)
+        elif self.xtype == 'L':
+            value = - value_scale * np.log(value_in / value_scale)
+        else:
+            raise ValueError('Unsupported convex/concave expression.')
+
+        return self.multiplier*self.sign*value + value_out
+
     def __le__(self, other):
 
         left = self - other
